@@ -287,6 +287,14 @@ func c09ForSig(p *Prog, sg c09Sig, si int) []*S {
 		ma = append(ma, vargs(2)...)
 	}
 	out = append(out, use(&E{K: "mcall", X: v(tv, pt), M: "m" + fmt.Sprint(si), Args: ma}, "m")...)
+	if sg.variadic {
+		// method call with a spread slice on a local receiver
+		xm := fmt.Sprintf("xm%d", si)
+		vt := SliceOf(TInt)
+		out = append(out, &S{K: "decl", Names: []string{xm}, Exprs: []*E{{K: "slicelit", Ty: vt, Args: []*E{lit(TInt, 3), lit(TInt, 4), lit(TInt, 5)}}}})
+		out = append(out, use(&E{K: "mcall", X: v(tv, pt), M: "m" + fmt.Sprint(si), Args: append(args(2), v(xm, vt)), Spread: true}, "ms")...)
+		out = append(out, &S{K: "print", Ln: true, Exprs: []*E{{K: "str", Ty: TString, S: "after method spread"}, {K: "index", Ty: TInt, X: v(xm, vt), I: lit(TInt, 0)}, lenOf(v(xm, vt))}})
+	}
 	if !sg.variadic {
 		sig := &FuncSig{Params: sg.params, Results: results}
 		ft := FuncTy(sig)
